@@ -5,7 +5,8 @@ updated component is the first least-advanced one or is reachable from it along 
 one needs (computed by composing the adapters' documented time shifts in pull order), has itself no lagging
 dependency, and the time computed for a link equals the time argument observed at the source output."""
 from . import sched_common as sc
-from .sched_common import (TRUSTED, coq_obs, run_impl, shrink_candidates, distribution)  # noqa: F401
+from . import builtin_family as bf
+from .sched_common import (TRUSTED, coq_obs)  # noqa: F401
 from . import c01
 
 # as for C01: dense compositions against FV.Sched and FV.SchedSparse, sparse publishers against FV.SchedSparse
@@ -42,10 +43,15 @@ def generate(rng, tier):
             cases.append(sc.gen_ring(rng))
     for _ in range(30 if tier == "quick" else 800):
         cases.append(sc.gen_sparse(rng))
+    # finam's own components with timedelta / calendar steps (monitor only)
+    for _ in range(16 if tier == "quick" else 300):
+        cases.append(bf.gen_builtin(rng))
     return cases
 
 
 def monitor(case, obs):
+    if "builtin" in case:
+        return bf.monitor_builtin(case, obs)
     comps = case["comps"]
     if obs["phase"] != "run":
         return f"connect phase failed with {obs['outcome']}"
@@ -84,6 +90,8 @@ def monitor(case, obs):
 
 
 def nontrivial(case, obs):
+    if "builtin" in case:
+        return len(obs.get("mid_times", [])) >= 3
     if not c01.nontrivial(case, obs):
         return False
     comps = case["comps"]
@@ -93,3 +101,26 @@ def nontrivial(case, obs):
 
 
 classifiers = c01.classifiers
+
+
+def model_applies(case):
+    return "builtin" not in case
+
+
+def run_impl(case):
+    if "builtin" in case:
+        return bf.run_builtin(case["builtin"])
+    return sc.run_impl(case)
+
+
+def shrink_candidates(case):
+    if "builtin" in case:
+        return
+    yield from sc.shrink_candidates(case)
+
+
+def distribution(cases, obss):
+    pairs = [(c, o) for c, o in zip(cases, obss) if "builtin" not in c]
+    d = sc.distribution([c for c, _ in pairs], [o for _, o in pairs])
+    d["builtin_component_cases"] = len(cases) - len(pairs)
+    return d
